@@ -24,7 +24,7 @@ func init() {
 		Tech:        "static analysis: guarded-by-condition + backward value slice + error-discipline (every err tested, non-nil edge reaches non-nil returns) on SSA",
 		NeedU1:      true,
 		NeedU2:      true,
-		Rules:       []func(*Ctx){ruleC02FreshKeyOnlyIfStored, ruleC02SuccessIsStoreBool, ruleC02RecordMatchesKey, ruleC02NothingCachedOnError, ruleC02ErrorsNotRemembered, ruleC02AcquireReleasePaired, ruleC01ProvenanceDecrypt, lockBalancedRule("C02", 3, lockDomSpec{pkgApp, "keyCache", "rw"}), ruleC08EveryHandoutCounted, ruleC02ErrorMeansNoRecord, ruleC13InsertOnly, ruleC13StoreResult, ruleC09HandoutRelease, ruleC13FieldFidelity, ruleC13KeyFidelity, ruleC01CallerBuffersImmutable, ruleC01LatestFetchedUnderOwnID, recoverReportsFailureRule("C02", pkgApp, pkgInt, pkgPersist, pkgKmsV1, pkgKmsV2, pkgDynV1, pkgDynV2), ruleC13SidecarMetastoreWiring, ruleC18RegionSuffixResolvedOnEveryPath, ruleC13KMSInputNotModified, ruleC02CryptoKeyAsGiven, ruleC06KeyCacheIndexExact},
+		Rules:       []func(*Ctx){ruleC02FreshKeyOnlyIfStored, ruleC02SuccessIsStoreBool, ruleC02RecordMatchesKey, ruleC02NothingCachedOnError, ruleC02ErrorsNotRemembered, ruleC02AcquireReleasePaired, ruleC01ProvenanceDecrypt, lockBalancedRule("C02", 3, lockDomSpec{pkgApp, "keyCache", "rw"}), ruleC08EveryHandoutCounted, ruleC02ErrorMeansNoRecord, ruleC13InsertOnly, ruleC13StoreResult, ruleC09HandoutRelease, ruleC13FieldFidelity, ruleC13KeyFidelity, ruleC01CallerBuffersImmutable, ruleC01LatestFetchedUnderOwnID, recoverReportsFailureRule("C02", pkgApp, pkgInt, pkgPersist, pkgKmsV1, pkgKmsV2, pkgDynV1, pkgDynV2), ruleC13SidecarMetastoreWiring, ruleC18RegionSuffixResolvedOnEveryPath, ruleC13KMSInputNotModified, ruleC02CryptoKeyAsGiven, ruleC06KeyCacheIndexExact, ruleC17KEKFieldsFromNamesakes},
 	})
 }
 
